@@ -37,6 +37,7 @@ import (
 	"fmt"
 	"os"
 	"path/filepath"
+	"runtime"
 	"sort"
 	"strconv"
 	"strings"
@@ -230,6 +231,11 @@ func (r *run) settle(returned chan struct{}, c int) error {
 	case <-done:
 	case <-time.After(ceiling()):
 		trip()
+		if os.Getenv("C12_DEBUG") != "" {
+			buf := make([]byte, 1<<22)
+			n := runtime.Stack(buf, true)
+			os.WriteFile(fmt.Sprintf("/verif/.work/C12/dbg/stack-%d.txt", time.Now().UnixNano()), buf[:n], 0o644)
+		}
 		return fmt.Errorf("inconclusive: ProcessResponse neither returned nor did its command complete within its ceiling")
 	}
 	return nil
@@ -265,17 +271,20 @@ func (r *run) send(command controlcommands.MesosCommand, receiver controlcommand
 	r.record(ev)
 	ch := r.sendSeen[[2]int{c, t}]
 	r.mu.Unlock()
-	select {
-	case <-ch:
-	default:
-		close(ch)
-	}
 	if spec.mode == "auto" {
+		// issued BEFORE the driver is told that the send happened: a scripted reply on
+		// this key must queue up behind this one (it could otherwise be taken first and
+		// block on call.Done while this goroutine — the caller — waits for it).
 		if _, err := r.issue(mid, c, t, spec.tag, spec.err, command.GetId()); err != nil {
 			r.mu.Lock()
 			r.fail = err
 			r.mu.Unlock()
 		}
+	}
+	select {
+	case <-ch:
+	default:
+		close(ch)
 	}
 	if !ok {
 		return errors.New(sendErrText)
